@@ -351,7 +351,7 @@ func atpcMain(a Args) {
 			for _, j := range base {
 				add(j, "c06-base")
 			}
-			budget := 6000
+			budget := 9000
 			if thorough {
 				budget = 1 << 30
 			}
